@@ -145,7 +145,11 @@ impl Node {
     /// Effectively, allows only One non-secure node or Eight secure nodes from the same IP, in the routing table or ClosestNodes.
     pub(crate) fn already_exists(&self, nodes: &[Self]) -> bool {
         nodes.iter().any(|existing| {
-            self.same_ip(existing)
+            // An entry with this very id is the node itself, not a competitor for its IP: let
+            // the bucket decide whether to refresh it (otherwise `last_seen` is never renewed
+            // and a responsive node is purged as stale every 15 minutes).
+            existing.id() != self.id()
+                && self.same_ip(existing)
                 && (!existing.is_secure()
                     || self.id().first_21_bits() == existing.id().first_21_bits())
         })
